@@ -125,6 +125,45 @@ fn extract_keys_from_type(ty: &Rc<SemType>) -> Vec<String> {
     }
     keys
 }
+// A key of the (infinite) string domain `ty` that is not in `taken`, if one can be spelled out.
+fn undeclared_key_of(ty: &Rc<SemType>, taken: &BTreeSet<String>) -> Option<String> {
+    fn item(it: &TplLitTypeItem, n: usize) -> String {
+        match it {
+            TplLitTypeItem::StringConst(s) => s.clone(),
+            TplLitTypeItem::String => format!("\u{1}key{}", n),
+            TplLitTypeItem::Number => format!("{}", n),
+            TplLitTypeItem::Boolean => "true".to_string(),
+            TplLitTypeItem::OneOf(items) => items.iter().next().map(|i| item(i, n)).unwrap_or_default(),
+        }
+    }
+    if is_finite_string_set(ty) {
+        return None;
+    }
+    for n in 0..(taken.len() + 1) {
+        let candidate = if (ty.all & SubTypeTag::String.code()) != 0 {
+            Some(format!("\u{1}key{}", n))
+        } else {
+            ty.subtype_data.iter().find_map(|st| match st.as_ref() {
+                ProperSubtype::String {
+                    allowed: true,
+                    values,
+                } => values.iter().find_map(|v| match v {
+                    StringLitOrFormat::Tpl(tpl) if !tpl.0.iter().all(is_finite_tpl_item) => {
+                        Some(tpl.0.iter().map(|i| item(i, n)).collect::<String>())
+                    }
+                    _ => None,
+                }),
+                _ => None,
+            })
+        };
+        match candidate {
+            Some(c) if !taken.contains(&c) => return Some(c),
+            Some(_) => continue,
+            None => return None,
+        }
+    }
+    None
+}
 enum IntersectionResult {
     Empty,
     Atomic(Rc<MappingAtomicType>),
@@ -361,6 +400,27 @@ fn check_mapping_empty(
         let keys = extract_keys_from_type(&idx.key);
         for k in keys {
             all_keys.insert(k);
+        }
+    }
+
+    // Keys that nobody declares are told apart only by the key domains of the index signatures they fall
+    // into. One undeclared key of each such domain is looked at like a declared one, so that a single key can
+    // escape `current_neg` while the others stay unrestricted (restricting all of them at once, as step 5 does,
+    // misses `{[k: string]: A | B}` against `{[k: string]: A} | {[k: string]: B}`).
+    if pos.indexed_properties.is_some() {
+        let mut domains = vec![];
+        if let Some(idx) = &pos.indexed_properties {
+            domains.push(idx.key.clone());
+        }
+        for n in negs {
+            if let Some(idx) = &n.indexed_properties {
+                domains.push(idx.key.clone());
+            }
+        }
+        for d in domains {
+            if let Some(k) = undeclared_key_of(&d, &all_keys) {
+                all_keys.insert(k);
+            }
         }
     }
 
